@@ -19,7 +19,7 @@ from vf.xmodel import Schema, Rop, Shadow, Bound
 SHARDS = {'quick': 16, 'thorough': 64}
 TIMEOUT = {'quick': 1500, 'thorough': 7200}
 MUST_HIT = ['Call.python-function', 'Call.python-bridge', 'Call.python-class-operation',
-            'Call.builtin-external-entity', 'Call.legacy-keyword-bridge', 'Call.legacy-keyword-transform', 'Call.python-instance-operation', 'Call.derived-attribute', 'Call.derived-attribute-outside-state', 'Call.enumerator', 'Call.constant',
+            'Call.derived-attribute-early-bare-return', 'Call.builtin-external-entity', 'Call.legacy-keyword-bridge', 'Call.legacy-keyword-transform', 'Call.python-instance-operation', 'Call.derived-attribute', 'Call.derived-attribute-outside-state', 'Call.enumerator', 'Call.constant',
             'Call.nested', 'Call.recursive', 'Call.bare-return', 'Call.no-return', 'Call.in-where-clause',
             'Call.in-loop-condition', 'Scope.caller-variable-kept', 'State.compared']
 MUST_REACH = ['bridgepoint/ooaofooa.py:mk_function', 'bridgepoint/ooaofooa.py:mk_bridge',
@@ -96,6 +96,7 @@ def call_node(e, args, target=None):
 
 
 LEGACY = {}
+DER_FORMS = {}
 
 
 class ModelGen(object):
@@ -156,10 +157,19 @@ class ModelGen(object):
                            call_node(pure, {'n': oalsem.bin_('*', oalsem.attr(oalsem.self_(), 'N'), oalsem.lit(2))}))
         # ... and reads a plain attribute of another class that happens to carry the same name
         other = oalsem.attr(oalsem.var('o2'), 'der')
-        self.der_body = [oalsem.select_from('any', 'o2', 'K2'),
-                         oalsem.if_(oalsem.un('not_empty', oalsem.var('o2')),
-                                    [oalsem.assign(oalsem.attr(oalsem.self_(), 'der'), oalsem.bin_('+', expr, other))],
-                                    [], [oalsem.assign(oalsem.attr(oalsem.self_(), 'der'), expr)])]
+        if r.random() < 0.5:
+            self.der_body = [oalsem.select_from('any', 'o2', 'K2'),
+                             oalsem.if_(oalsem.un('not_empty', oalsem.var('o2')),
+                                        [oalsem.assign(oalsem.attr(oalsem.self_(), 'der'), oalsem.bin_('+', expr, other))],
+                                        [], [oalsem.assign(oalsem.attr(oalsem.self_(), 'der'), expr)])]
+        else:
+            # the same value, leaving the body early through a bare return after the assignment
+            DER_FORMS['early-bare-return'] = DER_FORMS.get('early-bare-return', 0) + 1
+            self.der_body = [oalsem.select_from('any', 'o2', 'K2'),
+                             oalsem.if_(oalsem.un('not_empty', oalsem.var('o2')),
+                                        [oalsem.assign(oalsem.attr(oalsem.self_(), 'der'), oalsem.bin_('+', expr, other)),
+                                         oalsem.return_(None)], [], None),
+                             oalsem.assign(oalsem.attr(oalsem.self_(), 'der'), expr)]
         self.der_text = om.render(om.body(self.der_body), self.render_rng, case=self.case)
 
     def is_pure(self, e):
@@ -693,3 +703,5 @@ def run(ctx):
             ctx.violation(e.key, e.what, case=dict(what=e.what))
     for k, v in LEGACY.items():
         ctx.hit('Call.legacy-keyword-' + k, v)
+    for k, v in DER_FORMS.items():
+        ctx.hit('Call.derived-attribute-' + k, v)
